@@ -5,6 +5,7 @@ import (
 	"fmt"
 	"io"
 	"net"
+	"os"
 	"strconv"
 	"strings"
 	"sync"
@@ -477,7 +478,7 @@ write:
 }
 
 func c28(r *vkit.Run) {
-	r.SetRule("full in-process BFE (MaxHeaderBytes 8192). Family 1: each connection carries 2-6 pipelined requests drawn from 15 kinds (GET, HEAD, POST with Content-Length / chunked / Expect: 100-continue bodies of 1 B..1.1 MB, the same answered by a module response so that no handler reads the body, HTTP/1.0, Connection: close, a 20 KB header, an unparsable request line, chunked bodies with a malformed chunk-size line both forwarded and left unread by a module response), written in one segment or split at random sizes. Family 2 (bodies on methods that usually have none): each connection carries 2-5 requests, at least one of them before the last a HEAD / GET / DELETE / OPTIONS / TRACE / unknown-method (FROB) request that declares a body with Content-Length or chunked coding (chunks of 7 B, 1000 B or the whole body; forwarded, or answered by a module response so that no handler reads it), mixed with ordinary GET / HEAD / POST requests; half of the connections pipelined, half keep-alive (request i+1 written only when the final response to request i has arrived); every generated request of family 2 is accepted in full by the reference request parser. Request bodies consist of well-formed decoy requests (in family 2 mostly a whole number of them: 1, 2, 15 or 1000). The client byte stream is parsed by the strict reference response parser: responses must match requests in order (ids echoed by backend/module), at most one final response each, no decoy ever answered or seen by a backend, no bfe '400 Bad Request' in the place of the response to a well-formed request (bfe writes it only when it fails to parse a request head), no further response on the connection after a forwarded request whose declared body did not arrive at the backend as that request's body (length and content reported by the backend), nothing after a request that ends the connection, and the connection is closed (FIN or reset within 10 s of the last octet, every client read and write carrying a deadline) after a response that ends it: to a request bfe cannot continue after, to a request or with a response carrying Connection: close, or with a close-delimited body. Non-trivial = family 1: >=2 requests answered or a terminal kind in the middle; family 2: a bodied request and the request after it both answered in order; distinct = kind/size/chunk sequence and connection mode")
+	r.SetRule("full in-process BFE (MaxHeaderBytes 8192). Family 1: each connection carries 2-6 pipelined requests drawn from 15 kinds (GET, HEAD, POST with Content-Length / chunked / Expect: 100-continue bodies of 1 B..1.1 MB, the same answered by a module response so that no handler reads the body, HTTP/1.0, Connection: close, a 20 KB header, an unparsable request line, chunked bodies with a malformed chunk-size line both forwarded and left unread by a module response), written in one segment or split at random sizes. Family 2 (bodies on methods that usually have none): each connection carries 2-5 requests, at least one of them before the last a HEAD / GET / DELETE / OPTIONS / TRACE / unknown-method (FROB) request that declares a body with Content-Length or chunked coding (chunks of 7 B, 1000 B or the whole body; forwarded, or answered by a module response so that no handler reads it), mixed with ordinary GET / HEAD / POST requests; half of the connections pipelined, half keep-alive (request i+1 written only when the final response to request i has arrived); every generated request of family 2 is accepted in full by the reference request parser. Request bodies consist of well-formed decoy requests (in family 2 mostly a whole number of them: 1, 2, 15 or 1000). The client byte stream is parsed by the strict reference response parser: responses must match requests in order (ids echoed by backend/module), at most one final response each, no decoy ever answered or seen by a backend, no bfe '400 Bad Request' in the place of the response to a well-formed request (bfe writes it only when it fails to parse a request head), no further response on the connection after a forwarded request whose declared body did not arrive at the backend as that request's body (length and content reported by the backend), nothing after a request that ends the connection, and the connection is closed (FIN or reset within 10 s of the last octet, every client read and write carrying a deadline) after a response that ends it: to a request bfe cannot continue after, to a request or with a response carrying Connection: close, or with a close-delimited body. Family 3 (chunk-framing defects, c28chunk.go): each connection carries 0-1 ordinary requests and then ONE chunked POST (three chunks of 3 B..5000 B of decoy-request text) whose framing has one defect, enumerated round-robin over (defect, position, handler, tail): defect = chunk-size line that is not 1*HEXDIG CRLF (non-hex, empty, '+', '0x', leading SP, 17 digits = 2^64+n, bare LF, CR without LF) / chunk data not followed by CRLF ('XX', CR X, X LF, LF only, CR only, nothing, LF CR) / bad last-chunk ('0' LF, '0Z', '0' CR CR LF, '0' CRLF directly followed by a request line) / a trailer line that is no header field (with and without the empty line after it) / the body cut off with a client half-close (in a size line, after its CR, in the data, after the data, after the CR behind it, before the last-chunk, after '0' CRLF, inside the trailer); position = first / middle / last chunk; handler = body forwarded to a backend that reads it all / backend (own cluster, raw early-reply backend) that answers as soon as it has the request head, so that bfe writes the response while the body is still being copied / module response, no handler reads the body; tail = the octets behind the defect continue as valid chunk framing up to a last-chunk followed by two pipelined decoy requests / a valid next request (pipelined, or written when the response has arrived) / FIN. Such a request never says Connection: close itself. Oracle (the same, plus): after the defective request at most one final response, nothing after it on the connection (response-after-connection-ending-request), no decoy answered or at a backend, no request that follows it at a backend (request-after-framing-error-reached-backend), connection closed (connection-not-closed-after:framing-error); the run is inconclusive if a (handler, defect, tail) cell was never observed ending that way (chunk_defect_cells_closed). Non-trivial = family 1: >=2 requests answered or a terminal kind in the middle; family 2: a bodied request and the request after it both answered in order; family 3: everything before the defective request answered in order, at most one response to it, connection closed by bfe; distinct = kind/size/chunk sequence and connection mode")
 	bs := e2e.NewBackendSet()
 	defer bs.Close()
 	be := bs.New("b1", func(x *e2e.Exchange) e2e.Action {
@@ -545,6 +546,15 @@ func c28(r *vkit.Run) {
 		for i := 0; i < nd; i++ {
 			cases = append(cases, c28GenDefect(r.Rng("chunkdefect", i), n+nb+i, dcells[dorder[i%len(dcells)]]))
 		}
+	}
+	if only := os.Getenv("VERIF_DEBUG_C28_ONLY"); only != "" && r.Replay == "" { // development aid: run one family alone ("-" = first family)
+		var keep []*c28Case
+		for _, c := range cases {
+			if c.Fam == only || (only == "-" && c.Fam == "") {
+				keep = append(keep, c)
+			}
+		}
+		cases = keep
 	}
 	selfcheckFailed := 0
 	for _, c := range cases {
